@@ -5,7 +5,7 @@ import numpy as np
 
 from vlib import alias, clock, graphs as G, gens, oracles
 from vlib.base import import_dsw
-from props._repair import generated_graph, call_repair, well_formed
+from props._repair import heap_value, generated_graph, call_repair, well_formed
 
 ID = "C09"
 LEVEL = "fault_enumeration"
@@ -152,12 +152,12 @@ def generate(ctx):
             for tag, s in variants:
                 if len(s) < k:
                     continue
-                ck = rng.choice(["none", "own", "own", "original", "original", "arbitrary"])
+                ck = rng.choice(["none", "own", "own", "original", "original", "arbitrary"] * 4 + ["empty-string"])
                 nvt = rng.choice([1, 2, 3, 5])
                 check = {"none": None, "own": oracles.vt(s, nvt), "original": oracles.vt(w, nvt),
-                         "arbitrary": gens.random_dna(rng, nvt)}[ck]
+                         "arbitrary": gens.random_dna(rng, nvt), "empty-string": ""}[ck]
                 yield "repair", dict(gcase, start=int(start), s=s, original=w, check=check, ck=ck, indel=rng.random() < 0.6,
-                                     heap=rng.choice(HEAPS), tag=tag, npstr=rng.random() < 0.15, again=rng.random() < 0.15, layout=rng.choice([None] * 6 + ["F", "i32", "i16"]), npargs=rng.random() < 0.1)
+                                     heap=rng.choice(HEAPS + (["inf", 10 ** 9] if tag in ("walk", "edited-1", "first-window", "last-window") else [])), tag=tag, npstr=rng.random() < 0.15, again=rng.random() < 0.15, layout=rng.choice([None] * 6 + ["F", "i32", "i16"]), npargs=rng.random() < 0.1)
 
 
 def check_edit_sequence(ctx, case):
@@ -195,7 +195,7 @@ def check_repair(ctx, case, acc_obj=None):
     kind, res, _r, _steps = call_repair(dsw, s, acc, start, k, check=passed, has_indel=case["indel"], heap=case["heap"])
     if kind == "ok" and well_formed(res) and acc_obj is None and case.get("again"):
         # G1: scramble the returned candidates, repeat the identical call on the same accessor object
-        fn = lambda: dsw.repair_dna(s, acc, start, k, vt_check=passed, has_indel=case["indel"], heap_size=case["heap"])  # noqa
+        fn = lambda: dsw.repair_dna(s, acc, start, k, vt_check=passed, has_indel=case["indel"], heap_size=heap_value(case["heap"]))  # noqa
         first = fn()
         checked, same, second = alias.repeat_after_scramble(lambda: fn(), (), {}, first)
         if checked:
@@ -251,7 +251,7 @@ def check_repair(ctx, case, acc_obj=None):
             else:
                 ctx.cls("product|no check")
     ctx.cls("string|" + case["tag"])
-    ctx.cls("heap|%g" % case["heap"])
+    ctx.cls("heap|%s" % case["heap"])
     if acc_obj is None:
         ctx.done("repair", case, nontrivial)
     else:
